@@ -8,7 +8,7 @@ import lib
 from props import fsx
 
 ID = 'C11'
-GEN_FILES = ['T_files_file', 'T_file_proto', 'T_p8_proto', 'T_png_proto']
+GEN_FILES = ['T_file_proto', 'T_p8_proto', 'T_png_proto']
 COQ_PROPERTY = 'theories/Properties/C11.vo'
 COQ_EXTRA = []
 MODEL = ('ExC11', 'c11_main.ml')
